@@ -95,6 +95,22 @@ def mk (taskMain : Nat) (nStop : Nat) (publisher : Bool) (cap : Nat := 1) (tstat
 /-- stop request(s) reaching a task thread that is **not** running `task.run()`: `_state = tstate` -/
 def sysEarly (tstate : Nat) (nStop : Nat) : Sys := mk fMainIdle nStop false 1 tstate
 
+/-- the task thread has ended by QMI_TaskStopException -/
+def endedByStop (s : St) : Bool := match taskTh s with | some t => t.status == .raised .stop | none => false
+
+/-- the loop task's `run()` has returned normally after exactly one `loop_finalize` -/
+def endedFinalised (s : St) : Bool := match taskTh s with | some t => t.status == .done && s.fin == 1 | none => false
+
+/-- everything C11 asks of one state of a system with a generic waiting task -/
+def goodWaiter (sys : Sys) (s : St) : Bool :=
+  !lostWakeup sys s && !anyCrashed s && stopSetsFlag sys s && noParkAfterStop sys s && exitOnlyByStop s &&
+  releasedB sys endedByStop s && progress sys s
+
+/-- the same for the loop task -/
+def goodLoop (sys : Sys) (s : St) : Bool :=
+  !lostWakeup sys s && !anyCrashed s && stopSetsFlag sys s && noParkAfterStop sys s && loopExit s &&
+  releasedB sys endedFinalised s && progress sys s
+
 /-- every stop request of the system has returned -/
 def allStoppersDone (sys : Sys) (s : St) : Bool :=
   (List.range sys.nStop).all fun i => match s.ths[i+1]? with | some t => t.status == .done | none => false
@@ -125,11 +141,13 @@ def sysRecvT : Sys := mk fMainRecvT 1 true
 def sysLoop : Sys := mk fMainLoop 1 false
 /-- two concurrent stop requests (`stop()` and `_request_shutdown`) against `sleep()` -/
 def sysSleep2 : Sys := mk fMainSleep 2 false
-/-- two concurrent stop requests against `get_next_signal(None)` (explored by the driver on every run) -/
+/-- two concurrent stop requests against `get_next_signal(None)` -/
 def sysTwo : Sys := mk fMainRecvN 2 false
-/-- free mixture of the three waits, one stop request, a publisher (explored by the driver on every run) -/
+/-- the loop task and two concurrent stop requests -/
+def sysLoop2 : Sys := mk fMainLoop 2 false
+/-- free mixture of the three waits, one stop request, a publisher -/
 def sysAny : Sys := mk fMainAny 1 true
-/-- free mixture, two stop requests, a publisher (explored by the driver on every run) -/
+/-- free mixture, two stop requests, a publisher -/
 def sysAnyTwo : Sys := mk fMainAny 2 true
 
 /-! A deliberately wrong stopper, used only to show that the obligations are not vacuous: the hand-made variant
